@@ -12,4 +12,3 @@ def check(ck):
     ck.run(H.check_resolver_closures, ck, "C13.R3")
     ck.run(H.check_field_call_lint, ck, "C13.R4")
     ck.run(H.check_version_taint, ck, "C13.R5")
-    H.fail_closed(ck)
